@@ -837,7 +837,7 @@ static size_t safec_etoa(out_fct_type out, const char *funcname, char *buffer,
             // might need to right-pad spaces
             if (flags & FLAGS_LEFT) {
                 while (idx - start_idx < width) {
-                    out(' ', buffer, idx++, maxlen);
+                    rc = out(' ', buffer, idx++, maxlen);
                     if (unlikely(rc < 0))
                         return rc;
                 }
